@@ -37,6 +37,15 @@ class Talk:
         time.sleep(self.secs)
         n = self.name
         labtech.logger.info(f'LOG-{n}-X')
+        import threading
+        labtech.logger.info('ARG-%s-X with %s', n, threading.Lock())     # a %-style record whose argument cannot be pickled
+        if self.mode == 'die':
+            # records emitted (and text flushed) BEFORE the worker dies hard must still arrive: nothing may wait in the worker
+            labtech.logger.info(f'DIE-{n}-X')
+            print(f'DIEOUT-{n}-X', flush=True)
+            sys.stdout.flush()
+            import os
+            os._exit(1)
         print(f'OUT-{n}-X')
         for _ in range(self.flushes):
             sys.stdout.flush()
@@ -68,7 +77,9 @@ class Talk:
 
     def tokens(self):
         n = self.name
-        t = [f'LOG-{n}-X', f'OUT-{n}-X', f'OUT2-{n}-X', f'ERR-{n}-X']
+        if self.mode == 'die':
+            return [f'LOG-{n}-X', f'ARG-{n}-X', f'DIE-{n}-X', f'DIEOUT-{n}-X']
+        t = [f'LOG-{n}-X', f'ARG-{n}-X', f'OUT-{n}-X', f'OUT2-{n}-X', f'ERR-{n}-X']
         if self.mode == 'partial':
             t += [f'PART-{n}-X', f'REST-{n}-X', f'ZQE-{n}-X', f'ZQF-{n}-X']
         if self.mode == 'tail':
@@ -121,6 +132,8 @@ def scenarios(tier):
           ('failing-task-printed-first', [Talk('a', 0.0, 0, 'fail'), Talk('b')]),
           ('failing-task-finishes-last', [Talk('b'), Talk('a', 0.5, 0, 'fail')]),
           ('only-task-fails', [Talk('a', 0.0, 0, 'fail')]),
+          ('worker-dies-after-logging', [Talk('a'), Talk('b', 0.2, 0, 'die')]),
+          ('only-task-dies-after-logging', [Talk('a', 0.0, 0, 'die')]),
           ('identical-output-from-several-tasks', [Talk('a', 0.0, 0, 'same'), Talk('b', 0.1, 0, 'same'), Talk('c', 0.2, 0, 'same')]),
           ('chatty-last-finisher', [Talk('a'), Talk('b', 0.3, 0, 'lines', 1500)]),
           ('two-chatty-finish-together', [Talk('a', 0.2, 0, 'lines', 700), Talk('b', 0.2, 0, 'lines', 700)])]
@@ -185,7 +198,7 @@ def main():
         print(json.dumps(res, default=str))
     else:
         print(json.dumps([dict(name='c19:messages-exactly-once-before-return', bounded=True,
-                               bound=f'{n} scenario x backend runs (fork, spawn): flush patterns, unterminated text, no trailing newline, failing task, up to {1500 if a.tier == "quick" else 6000} records from the last finisher',
+                               bound=f'{n} scenario x backend runs (fork, spawn): flush patterns, unterminated text, no trailing newline, failing task, a worker that dies hard after logging, an unpicklable %-argument, up to {1500 if a.tier == "quick" else 6000} records from the last finisher',
                                violation=bool(res.get('reproduced')), witness=[res] if res.get('reproduced') else [], error=res.get('error'))], default=str))
     return 1 if res.get('reproduced') else 0
 
